@@ -199,7 +199,9 @@ class DefaultOptimizerStep(PlanStep):
         results = self._nested_optimization.run_function(variables)
         if self._nested_optimization.aborted:
             self.plan.abort()
-        if not isinstance(results, FunctionResults):
+        # The nested optimization may have no result, for instance when it was
+        # aborted, this is handled by the optimizer:
+        if results is not None and not isinstance(results, FunctionResults):
             msg = "Nested optimization must return a FunctionResults object."
             raise TypeError(msg)
         return results, self._nested_optimization.aborted
